@@ -43,6 +43,18 @@ CHECKS = {
    text="Same engine and cases as C01, searching keywords that are NOT in the database: random ones and ones adversarially close to a stored keyword (prefix, suffix, extension by \\x01 and by \\x00, one-bit flip, doubled), for every scheme x grid configuration x length profile explored by TLC in MC_Profiles. Each case is judged by TLC against SSEFunctional (Trace_SSE): no exception and an empty result (CorrectAbsent / SearchNoRaise:absent).",
    ref="5/C02", note="as C01; absent keywords respect the scheme's keyword-length limit and have no leading NUL",
    technique="TLA+ layout model explored by TLC; explored cases replayed with absent keywords; TLC trace validation"),
+ "C14": dict(level="model_checking",
+   text="TLC proves on MC_SKE (up to 254k states) that literal PKCS7 Unpad inverts Pad for every message length 0..80 over all padding-relevant tails, that Pad's image is exactly ValidPad, the length formula, and the iv-prefix/offset framing over an abstract invertible core. Scripts on the real AESxCBC (every key length x every |m| 0..80 x PKCS7-relevant contents, longer messages, repeated encryptions, wrong-key decryptions, every declared-length violation, non-permitted constructor arguments) are recorded with their Cipher core calls and os.urandom draws. Every trace is validated by TLC against Trace_SKE: ct = iv . CBC[k,iv,Pad(m)] with iv a fresh in-call random draw, |ct| formula, Decrypt(Encrypt) = id, wrong key in Raised or Msg minus {m}, contract breaks => ValueError, IVs pairwise distinct over the run.",
+   ref="5/C14", note="AES and CBC inside `cryptography` trusted (abstract core read from recorded calls, cross-checked against a direct AES-CBC call); randomness observed at os.urandom as seen from the aes module; IV freshness and wrong-key behaviour observed on the sampled calls, not proved; decrypt structure / invalid padding => ValueError reported as drift only",
+   technique="TLA+ reference construction with abstract core, TLC model checking of the padding/framing theorems, module-attribute recorders, TLC trace validation of every call"),
+ "C16": dict(level="model_checking",
+   text="TLC checks on MC_PHash (toy core, all four digest sizes, output lengths on both sides of every digest-size multiple) that the RFC 5246 P_hash assembly and the counter-mode hash assembly are defined on exactly the calls of the construction, undefined if any one is missing, yield exactly n bytes, and are prefix-consistent, and that the counter encoding is 1-based minimal big-endian. Every real HmacPRF / hash-wrapper call (4 digests + 2 XOFs, key lengths 0..80, messages 0..200, outputs 1..200 each covered, boundary grids, declared-length violations, near-collision sets) is recorded with its hmac.new/hashlib.new core objects and validated by TLC against Trace_PHash: output = Take(assembly of the recorded core values, n), core = standard-library value on the recorded input, |out| = n, deterministic across instances, pairwise distinct over sampled sets, contract breaks => ValueError.",
+   ref="5/C16", note="HMAC / SHA / MD5 / SHAKE of the standard library trusted (abstract core, each recorded value compared with a direct stdlib call); the documented hash expansion is taken from toolkit/hash.py; distinctness observed on sampled sets; the exact core-call set is Layer B drift only",
+   technique="TLA+ reference construction over an abstract HMAC/hash graph read from the trace, TLC model checking of construction theorems, module-attribute recorders, TLC trace validation of every call"),
+ "C05": dict(level="model_checking",
+   text="TLC (MC_Profiles over Layouts.tla) checks on the layout model, for every scheme x grid configuration and all length profiles up to the bounds, that equal public size parameter pi_S implies equal shape (ShapeFunctionOfPi) and that every keyed table has one key length and one value length (UniformTables), and lists the profiles with their pi_S. The harness groups them into equivalence classes, builds every member with the real EDBSetup (fresh key, fresh contents), projects each index to per-container entry counts and (length, count) pairs, adds random larger classes per scheme, and TLC judges every class against Trace_Shape: SamePi (pi_S recomputed in TLA+), ShapeEqual, UniformPadding.",
+   ref="5/C05", note="shape projection walks the EDB object's containers (as serialized by pickle); integers counted as one width; classes beyond the model bounds are sampled",
+   technique="TLA+ layout/shape model checked by TLC; TLC-enumerated equivalence classes built on the real schemes; relational TLC trace validation"),
 }
 ALL = ["C%02d" % i for i in range(1, 21)]
 def main():
